@@ -51,6 +51,20 @@ pub fn run(suite: &str, a: &[&str]) -> Option<String> {
     if m2 != m1 || n2 != n1 {
         return Some("FAIL translate_mut differs from translate".into());
     }
+    // the Transform impl of Styled<T, S> itself (into_styled first, then translate / translate_mut)
+    for use_mut in [false, true] {
+        let mut t = NativeTarget::<Rgb565>::new(big());
+        if let Some(r) = z.draw_styled_translated(d, use_mut, &mut t) {
+            r.unwrap();
+            if t.map != m1 {
+                return Some(format!(
+                    "FAIL Styled::{} differs from styling the translated primitive: {}",
+                    if use_mut { "translate_mut" } else { "translate" },
+                    first_diff(&m1, &t.map)
+                ));
+            }
+        }
+    }
     // bounding boxes (non-empty) shift by d
     let (b0, b1) = (z.bounding_box(), zt.bounding_box());
     if !b0.is_zero_sized() && (b1.top_left != b0.top_left + d || b1.size != b0.size) {
